@@ -1,7 +1,7 @@
 #!/usr/bin/env python3
 """Prepare a round of sub-agent work: scratch worktrees of /repo and one prompt file per property.
 
-usage: mk_prompts.py seed    <base dir> <flavour: unusual|coordinated|disguised|feature|subtle|mixed> [Cxx ...]
+usage: mk_prompts.py seed    <base dir> <flavour: unusual|coordinated|disguised|feature|subtle|modern|mixed> [Cxx ...]
        mk_prompts.py neutral <base dir> <flavour: small|medium|large|modern> [Cxx ...]
 
 Each sub-agent gets ONLY the text of one property (from properties.jsonl) and its own scratch git worktree
@@ -51,6 +51,8 @@ FLAVOURS = {
 }
 
 FLAVOURS["subtle"] = '''Flavour for this property: SMALL and SEMANTICALLY SUBTLE. Each change is 1-6 changed lines and hinges on a language or library subtlety rather than on an obviously wrong check: a comparison operator or its operand order; an integer type, width, sign or conversion placed one step too early or too late; slice length versus capacity, a three-index slice dropped or added, append onto a slice that shares its backing array, a buffer or hash object reused across calls or iterations; a shadowed variable (:= instead of =) so that an outer result or error is not the one checked; an early return or continue that skips a later state update; a defer or Unlock moved; a loop bound or step; copy() with a destination that is too short; two statements swapped that have a hidden dependency; a switch default or fallthrough; nil versus empty slice or map; a value receiver where a pointer receiver was needed (or a range variable copied); a map that is now iterated where order matters. Do NOT touch the line that most obviously implements the property.'''
+
+FLAVOURS["modern"] = '''Flavour for this property: a MODERNISING refactoring with ONE wrong detail. Each change rewrites a piece of the anchored code (or of code it depends on) the way a maintainer tidying it up would - a local closure replacing repeated statements; a table or map of constants / constructors replacing a switch; a loop over a small table replacing written-out statements; a generic helper; named results with a single exit; binary.BigEndian.AppendUint16/32 or explicit appends replacing PutUint16 into a pre-sized buffer (or the other way round); a struct literal replacing field-by-field assignment; guard clauses replacing nested ifs; a helper method extracted - and is behaviour-preserving EXCEPT for exactly one detail that breaks the property: one table entry, one captured variable updated at the wrong moment, one constant, one offset, one dropped or swapped statement, one condition inverted for one case, an early return that skips something. 20-60 changed lines of which one or two matter.'''
 
 NEUTRAL_SMALL = '''You are helping to evaluate a verification effort by playing the role of a careful maintainer who REFACTORS code without changing behaviour. ''' + HEAD + '''
 Your task: produce FOUR independent, realistic, BEHAVIOUR-PRESERVING changes (call them a, b, c, d) to the library's non-test source inside the code this property is anchored in. Each change on its own must
